@@ -80,6 +80,7 @@ type LifeEvent struct {
 type ExtSpec struct {
 	Name      string
 	IsDir     bool           // a sub-directory (must not be launched)
+	Symlink   string         // the entry is a symbolic link to this target (which need not exist outside the function's root): a non-directory entry
 	Body      func(x *Actor) // process body, run once per generation (x.Gen)
 	OnTerm    string         // "die" (default action), "exit0", "ignore"
 	StartErr  error          // exec fails with this error
@@ -148,6 +149,8 @@ func (c *Config) Prepare() func() {
 		p := filepath.Join(dir, e.Name)
 		if e.IsDir {
 			os.MkdirAll(p, 0o755)
+		} else if e.Symlink != "" {
+			os.Symlink(e.Symlink, p)
 		} else {
 			os.WriteFile(p, []byte("#!/bin/true\n"), 0o755)
 		}
